@@ -1065,3 +1065,32 @@ func noGlobalWrites(c *Ctx, rule string, ents [][2]string, consequence string) {
 		c.Check(len(bad) == 0, rule, fname(f), "keeps no state across calls in package variables", "effect summary over the static and interface call closure", consequence+": "+strings.Join(bad, "; "), f.Pos())
 	}
 }
+
+// noGlobalAlias: the results of the named constructors do not alias package-level state of the module: an object handed
+// to one caller that shares memory with a package variable (a template state copied by value, slice headers included)
+// shares it with every other object made the same way.
+func noGlobalAlias(c *Ctx, rule string, ents [][2]string, consequence string) {
+	fx := getFX(c)
+	once := onceStateOf(c)
+	for _, e := range ents {
+		f := c.Fn(e[0], e[1])
+		if f == nil {
+			c.Missing(rule, e[0]+"."+e[1], "function", "not found")
+			continue
+		}
+		c.Evals++
+		var bad []string
+		if s := fx.sum[f]; s != nil {
+			for _, rs := range s.rets {
+				for r := range rs {
+					if r.Kind == rkGlobal && strings.HasPrefix(r.G, modPath) && !once[r.G] {
+						bad = append(bad, r.String())
+					}
+				}
+			}
+		}
+		sort.Strings(bad)
+		bad = dedup(bad)
+		c.Check(len(bad) == 0, rule, fname(f), "the result shares no memory with package variables", "", consequence+": the result may alias "+strings.Join(bad, ", "), f.Pos())
+	}
+}
